@@ -176,3 +176,20 @@ prop("C12", "c12",
            "reference classification and a differential between entry points; bounded exploration.",
      note="Trusted: the probe mechanism hands the generated error value to heimdall unchanged.",
      technique="property-based testing: error grammar + reference status table + differential across entry points")
+
+prop("C13", "c13",
+     "A logical request (method, scheme, host, path /svc/:id/*rest with percent-encoded captured segments, query, a custom "
+     "header with 0-2 values in arbitrary name casing, cookies, body as json / form / yaml / text) is turned into an "
+     "http.Request for the decision handler, one for the proxy handler (echo upstream) and an Envoy CheckRequest (header keys "
+     "lower-cased, repeated headers joined by ',', path/query separate, raw_body). The rule's CEL authorizer and a "
+     "conditional finalizer read captures / header (any casing in the expression) / cookie / decoded body / URL parts, a header "
+     "finalizer echoes the whole request view, two finalizers may add the same upstream header, a cookie finalizer adds "
+     "pipeline cookies. Oracle (differential): same decision class and status, same echoed view, same pipeline headers and "
+     "cookies on the upstream side of all three entry points. Non-trivial: the pipeline reads a capture, cookie, body field "
+     "or multi-valued header; distinct by (request, knobs). evaluations counts executions (3 per logical request).",
+     [dict(run="^TestEntryPointsAgree$", quick=600, thorough=6000, shards_thorough=12)],
+     ["Envoy's CheckRequest shape is simulated as in heimdall's own tests (path and query in separate fields)",
+      "client IP lists are not part of the compared view (the gRPC service derives them from gRPC metadata)"],
+     level="Randomised generated search with a three-way differential oracle on the assembled services; bounded exploration.",
+     note="Trusted: the adapters producing the three wire forms of one logical request.",
+     technique="property-based testing: differential between the three entry points")
